@@ -178,6 +178,8 @@ struct Held {
     reads_mark: usize,
     /// all later frames had already arrived (been read) when this item was yielded
     rest_already_read: bool,
+    /// number of transport read attempts (successful or not) made by then
+    polls_mark: usize,
 }
 
 impl Harness for ChainH {
@@ -280,6 +282,16 @@ impl Harness for ChainH {
                 cx.goal("replies-coalesced-in-one-read");
             }
         }
+        // C11 only: the peer may hang up after its first reply or in the middle of its second one;
+        // the stream then reports the end of the transport, and what was yielded before stays valid
+        let hangup = if self.hold && owed >= 2 && pad == 0 { cx.choose(3, "peer-hangs-up:never|after-the-first-reply|inside-the-second-reply") } else { 0 };
+        if hangup > 0 {
+            let at = if hangup == 1 { own_ends[0] } else { own_ends[0] + pad + frames[1].bytes.len() / 2 };
+            stream_bytes.truncate(at);
+            cuts.retain(|c| *c < at);
+            cx.goal("peer-hangs-up-while-items-are-held");
+        }
+        let mut hung_up = false;
         let frame_ends: Vec<usize> = {
             let mut e = Vec::new();
             let mut p = 0;
@@ -382,6 +394,12 @@ impl Harness for ChainH {
                                 break Err("waits-for-a-reply-nobody-owes");
                             }
                             if !deliver(&wire, &mut chunks, &mut arrived) {
+                                if hangup > 0 && !hung_up {
+                                    hung_up = true;
+                                    cx.log(|| "event: the peer hangs up".to_string());
+                                    wire.close();
+                                    continue;
+                                }
                                 break Err("stalled-with-all-bytes-delivered");
                             }
                         }
@@ -420,6 +438,12 @@ impl Harness for ChainH {
                     Some(it) => {
                         let got = render(&it);
                         cx.log(|| format!("stream: item #{yielded}: {got}"));
+                        if hung_up && yielded >= 1 && (got == "transport-eof" || got.starts_with("transport-or-decode-error")) {
+                            // the transport ended: nothing more is owed, but what is held must be intact
+                            check_held(cx, &wire, &|i| borrowed(&items[i]).unwrap_or("").to_string(), &held, &frames, yielded, "chain", &yields)?;
+                            gave_up = true;
+                            break;
+                        }
                         if yielded >= owed {
                             let class = if owed == 0 { "chain:oneway-only-chain-yields-a-reply" } else { "chain:stream-yields-more-than-owed" };
                             return Err(Verdict::fail(class, format!("chain {kinds:?}: {owed} replies owed but the stream yielded item #{yielded}: `{got}` (stream {})", show(&stream_bytes))));
@@ -449,6 +473,7 @@ impl Harness for ChainH {
                                     alloc_mark: alloclog::mark(),
                                     reads_mark: wire.0.borrow().reads.len(),
                                     rest_already_read: consumed >= frame_ends[owed - 1],
+                                    polls_mark: wire.0.borrow().read_polls,
                                 });
                             }
                             items.push(it);
@@ -507,7 +532,15 @@ fn check_held(cx: &Ctx, wire: &Wire, current: &dyn Fn(usize) -> String, held: &[
         } else {
             cx.goal("item-held-across-a-later-read");
         }
+        // A transport read attempt that came after another read had filled the buffer to its end:
+        // before it the connection either grows the buffer (the block may move: the listed finding
+        // `freed-by-buffer-growth`) or moves the pending bytes to the front (`reclaimed`, below).
+        // (The attempt itself may have brought nothing: the peer hung up.)
+        let attempts_since = w.read_polls > hd.polls_mark;
+        let full_buffer_met = (hd.reads_mark.max(1)..=w.reads.len()).any(|j| (j < w.reads.len() || attempts_since) && w.reads[j - 1].n == w.reads[j - 1].cap && w.reads[j - 1].cap > 0);
         if alloclog::freed_since(hd.alloc_mark, hd.ptr, hd.len.max(1)) {
+            // a buffer that was never full has no reason to be given up: not the listed finding
+            let site = if !full_buffer_met && site.is_empty() { "-although-it-was-never-full" } else { site };
             cx.soft_fail(
                 format!("borrow:{site_name}:held-item-freed-by-buffer-growth{site}"),
                 format!(
@@ -556,7 +589,7 @@ fn check_held(cx: &Ctx, wire: &Wire, current: &dyn Fn(usize) -> String, held: &[
         // A transport read that came after another one had filled the buffer to its end: before it
         // the connection either grew the buffer (caught above as a release) or moved the pending
         // bytes to the front to use the space of the messages already handed out again.
-        let reclaimed = (hd.reads_mark.max(1)..w.reads.len()).any(|j| w.reads[j - 1].n == w.reads[j - 1].cap && w.reads[j - 1].cap > 0);
+        let reclaimed = full_buffer_met;
         if cur != hd.copy && reclaimed && !hd.rest_already_read {
             cx.soft_fail(
                 format!("borrow:{site_name}:held-item-moved-over-when-a-full-buffer-was-reclaimed"),
@@ -681,7 +714,7 @@ impl Harness for ProxyStreamH {
                 check_held(cx, &wire, &|i| get(&items, i), &held, &frames, k, "proxy-stream", &yields)?;
                 yields.push((wire.0.borrow().reads.len(), own_ends[k], wire.0.borrow().consumed));
                 if let Ok(Ok(r)) = &it {
-                    held.push(Held { idx: k, ptr: r.s.as_ptr() as usize, len: r.s.len(), copy: frames[k].payload.clone(), alloc_mark: alloclog::mark(), reads_mark: wire.0.borrow().reads.len(), rest_already_read: wire.0.borrow().consumed >= stream_bytes.len() });
+                    held.push(Held { idx: k, ptr: r.s.as_ptr() as usize, len: r.s.len(), copy: frames[k].payload.clone(), alloc_mark: alloclog::mark(), reads_mark: wire.0.borrow().reads.len(), rest_already_read: wire.0.borrow().consumed >= stream_bytes.len(), polls_mark: wire.0.borrow().read_polls });
                 }
                 items.push(it);
             }
